@@ -163,8 +163,16 @@ def classify_occurrences(ctx, stmt, scope_src=SCOPE_PARAM, writer_local=None):
             continue
         preds = [p.replace(' ', '') for p in stmt.where_predicates(o.scope)]
         others = [x for x in real if x.scope == o.scope and x is not o]
-        if preds == [f'{o.alias}.rowid=?'] and all(res.get(id(x), ('',))[0] in ('exempt-lookup', 'exempt-registry')
-                                                    for x in others):
+        key_preds = [p_ for p_ in preds if p_ in (f'{o.alias}.rowid=?', f'?={o.alias}.rowid') or re.fullmatch(re.escape(o.alias) + r'\.rowid=:\w+', p_)]
+        join_preds = [p_ for p_ in preds if p_ not in key_preds]
+        lk_alias = {x.alias for x in others}
+
+        def _is_join(p_):
+            # an inner-join condition written in WHERE: <alias>.<col> = <alias>.<col> between this row and a lookup table
+            m = re.fullmatch(r'(\w+)\.(\w+)=(\w+)\.(\w+)', p_)
+            return bool(m) and {m.group(1), m.group(3)} <= (lk_alias | {o.alias}) and m.group(1) != m.group(3)
+        if len(key_preds) == 1 and all(_is_join(p_) for p_ in join_preds) \
+                and all(res.get(id(x), ('',))[0] in ('exempt-lookup', 'exempt-registry') for x in others):
             res[id(o)] = ('exempt-rowkey', 'single row addressed by rowid, joined only to lookup tables')
     out = []
     for o in occs:
